@@ -158,6 +158,21 @@ def handle : Handler := fun op inp impl => do
         let r : StepResult := { w := w', roGone := gone, requeue := ← fBool impl "requeue", err := ← fBool impl "err",
                                 writes := if w'.br == w.br && w'.net == w.net && w'.wl == w.wl then [] else ["changed"] }
         holds := holds ++ RV.Oracle.RolloutSM.stepOracles w r ++ RV.Oracle.RolloutSM.canaryStyleOracles w r
+        -- C07 "nothing oscillates": a successful write to the BatchRelease changes it (a reconcile that rewrites an identical
+        -- BatchRelease never reaches the fixed point `runBatchRelease` waits for)
+        -- C01 / C02 / C11: the Rollout trusts `batchReady` only of a BatchRelease whose status has acknowledged the CURRENT plan
+        -- (observed hash = hash of the spec): right after this reconcile changed the batch partition, the stored
+        -- acknowledgement must not cover the new partition yet (model: `runBatchRelease` / `finalizingBatchRelease` set
+        -- `hashSame := false`) - a plan hash that is blind to the partition would let a stale "ready" stand for the new batch
+        let partChanged := match w.br, w'.br with
+          | some b, some b' => b.partition != b'.partition
+          | _, _ => false
+        let unack := !partChanged || (w'.br.map (·.hashSame)) == some false
+        holds := holds ++ [("C01.partition_change_unacknowledged", unack), ("C02.partition_change_unacknowledged", unack),
+                           ("C11.partition_change_unacknowledged", unack)]
+        let implBrWritten := (jopt impl "brWritten").bind (fun x => x.getBool?.toOption) |>.getD false
+        holds := holds ++ [("C07.br_write_changes_it", !implBrWritten || w'.br != w.br),
+                           ("C02.br_write_changes_it", !implBrWritten || w'.br != w.br)]
         if RV.Oracle.RolloutSM.firstStepLeft w r then tags := tags ++ ["first-step-pinned:checked"]
         if RV.Oracle.RolloutSM.bypassTaken w r then tags := tags ++ ["bypass:taken"]
       | none => pure ()
@@ -166,7 +181,10 @@ def handle : Handler := fun op inp impl => do
     | .val r =>
       let wj := mkObj [("ro", if r.roGone then .null else roToJson r.w.ro), ("wl", optJ wlToJson r.w.wl), ("br", optJ brToJson r.w.br),
                        ("net", netToJson r.w.net), ("mem", memToJson r.w.mem)]
-      return { model := mkObj [("requeue", boolJ r.requeue), ("err", boolJ r.err), ("roGone", boolJ r.roGone), ("w", wj)],
+      let brW := r.writes.any fun x => x == "createBR" || x == "updateBR" || x == "patchBR" || x == "deleteBR" || x == "patchBRRolloutID"
+      return { model := mkObj ([("requeue", boolJ r.requeue), ("err", boolJ r.err), ("roGone", boolJ r.roGone), ("w", wj)] ++
+                 -- (the walks of the cluster / closedloop suites emit their Rollout reconciles without this field)
+                 (if (jopt impl "brWritten").isSome then [("brWritten", boolJ brW)] else [])),
                holds := holds, tags := tags }
   | "fault" => RV.Drv.Fault.handleFault ["C01", "C02", "C03", "C04", "C05", "C06", "C07", "C09", "C10", "C18"] impl
   | _ => .error s!"rolloutsm: unknown op {op}"
